@@ -17,7 +17,7 @@ import PCV.Props.Examples
 set_option synthInstance.maxSize 512
 
 namespace PCV.C15
-open PCV
+open PCV PCV.MV PCV.C15Spec
 variable {F : Type} [Field F] [DecidableEq F]
 
 /-! ### (a) the quotient decomposition of `divide_at_point` is exact -/
@@ -53,7 +53,7 @@ theorem combinations_sorted_distinct (original : List Nat) (k : Nat) (outs : Lis
     outs.Pairwise (· < ·) ∧ outs.Nodup ∧
       ∀ v ∈ outs, Comb.Good (sortNat original) k v ∧ v.Pairwise (· ≤ ·) ∧ v.length = k ∧
         ∀ x ∈ v, x ∈ original :=
-  combinations_spec original k outs h
+  Comb.combinations_spec original k outs h
 
 /-- non-vacuity: the crate's own `complicated` unit test, with the input unsorted -/
 example : combinations [4, 2, 1, 3, 2] 3
@@ -142,21 +142,85 @@ theorem pst13_commit_total (g γ : F) (β : List F) (ts : List Term) (nv s D : N
 
 /-- **Nothing committed is refused by `open`**, at any point: polynomials of degree `≤ s`, blinding
 polynomials of the shape `commit` draws (univariate terms of degree `≤ m`, the number of γ-powers
-per variable), enough challenges. -/
+per variable), enough challenges; whatever numbers of variables `nvp`, `nvr ≤ nv` the combined
+polynomials are declared over. -/
 theorem pst13_open_total (g γ : F) (β : List F) (ts : List Term) (nv s D m : Nat)
     (hcov : ∀ t, PST.Covered nv s t → t ∈ ts)
-    (ps rs : List (MVPoly F)) (z ξs : List F)
+    (nvp nvr : Nat) (hnvr : nvr ≤ nv) (ps rs : List (MVPoly F)) (z ξs : List F)
     (hps : ∀ p ∈ ps, polyWf p = true ∧ polyVarsBelow nv p = true ∧ degreeMV p ≤ s)
     (hrs : ∀ r ∈ rs, ∀ t ∈ termsOf r, PST.UniCovered nv m t)
     (hξ : ps.length ≤ ξs.length) (hz : nv ≤ z.length) :
-    ∃ π, PST.open (PST.wfCK g γ β ts nv s D m) nv nv ps z rs ξs = .ok π :=
-  PST.open_ok g γ β ts nv s D m hcov ps rs z ξs hps hrs hξ hz
+    ∃ π, PST.open (PST.wfCK g γ β ts nv s D m) nvp nvr ps z rs ξs = .ok π :=
+  PST.open_ok g γ β ts nv s D m hcov nvp nvr hnvr ps rs z ξs hps hrs hξ hz
 
-/-- **Completeness, one polynomial.** Key well-formed for an arbitrary trapdoor `β⃗`
-(`powers_of_g[t] = g·t(β⃗)` over any monomial list `ts`, `powers_of_gamma_g[i][j] = γ·βᵢ^(j+1)`,
-`beta_h[i] = βᵢ·h`), any polynomial `p` over `nv` variables, any hiding bound, RNG stream, point
-and challenge: if the committer returns `(c, r)` and the prover returns `π`, the verifier accepts
-the true value `p(z)`. -/
+/-- **Completeness, one polynomial, declared over any number `nvp ≤ nv` of variables** (`nvr ≤ nv`
+the declared variable count of the blinding polynomial: `nv` when hiding, `0` for the empty one).
+Key well-formed for an arbitrary trapdoor `β⃗` (`powers_of_g[t] = g·t(β⃗)` over any monomial list
+`ts`, `powers_of_gamma_g[i][j] = γ·βᵢ^(j+1)`, `beta_h[i] = βᵢ·h`), any hiding bound, RNG stream,
+point and challenge: if the committer returns `(c, r)` and the prover returns `π`, the verifier
+accepts the true value `p(z)`.  `open` returns one witness per variable of the key, so this
+includes polynomials declared over fewer variables than the key (the zero polynomial declared over
+`0` variables among them). -/
+theorem pst13_complete_fewer_vars (g γ h : F) (β : List F) (ts : List Term) (nv s D m nvp nvr : Nat)
+    (p : MVPoly F)
+    (hb : Option Nat) (rng : Bool) (draws : List F) (c : F) (r : MVPoly F) (rest : List F)
+    (z : List F) (ξ : F) (ξs : List F) (π : PST.Proof F)
+    (hnvp : nvp ≤ nv) (hnvr : nvr ≤ nv)
+    (hp : polyWf p = true) (hpv : polyVarsBelow nvp p = true) (hrv : polyVarsBelow nvr r = true)
+    (hβ : nv ≤ β.length) (hz : nv ≤ z.length)
+    (hc : PST.commit (PST.wfCK g γ β ts nv s D m) p hb rng draws = .ok (c, r, rest))
+    (ho : PST.open (PST.wfCK g γ β ts nv s D m) nvp nvr [p] z [r] (ξ :: ξs) = .ok π) :
+    PST.check (PST.wfVK g γ h β nv s D) [c] z [evalMV p z] π (ξ :: ξs) = .ok true
+      ∧ π.w.length = nv := by
+  have := PST.single_check_eq g γ h β ts nv s D m nvp nvr p hb rng draws c r rest z ξ ξs π 0 0
+    hnvp hnvr hp hpv hrv hβ hz hc ho
+  refine ⟨by simpa using this, ?_⟩
+  obtain ⟨hcs, hrw, _, hru, _⟩ := PST.commit_spec g γ β ts nv s D m p hb rng draws c r rest hc
+  unfold PST.open at ho
+  split at ho
+  · cases ho
+  · rename_i cc hcc
+    simp only [PST.combine] at hcc
+    split at hcc
+    · cases hcc
+    · injection hcc with hcc
+      subst hcc
+      have hnil : ∀ t ∈ termsOf ([] : MVPoly F), Term.wf t = true := by
+        intro t ht; simp [termsOf] at ht
+      have w1 : ∀ t ∈ termsOf (addScaledMV ([] : MVPoly F) ξ p), Term.wf t = true ∧ Term.varsBelow nvp t = true := by
+        intro t ht
+        rcases mem_addScaledMV_term _ _ _ t ht with ht | ht
+        · simp [termsOf] at ht
+        · exact ⟨(polyWf_iff p).1 hp t ht, (polyVarsBelow_iff nvp p).1 hpv t ht⟩
+      have w2 : ∀ t ∈ termsOf (addScaledMV ([] : MVPoly F) ξ r),
+          Term.wf t = true ∧ Term.varsBelow nvr t = true ∧ PST.isUni t = true := by
+        intro t ht
+        rcases mem_addScaledMV_term _ _ _ t ht with ht | ht
+        · simp [termsOf] at ht
+        · exact ⟨(polyWf_iff r).1 hrw t ht, (polyVarsBelow_iff nvr r).1 hrv t ht, hru t ht⟩
+      exact (PST.openCombined_defect g γ h β ts nv s D m nvp nvr _ _ z π hnvp hnvr
+        ((polyWf_iff _).2 (fun t ht => (w1 t ht).1)) ((polyVarsBelow_iff nvp _).2 (fun t ht => (w1 t ht).2))
+        ((polyWf_iff _).2 (fun t ht => (w2 t ht).1)) ((polyVarsBelow_iff nvr _).2 (fun t ht => (w2 t ht).2.1))
+        (fun t ht => (w2 t ht).2.2) ho).2
+
+/-- non-vacuity: `4 + 6x₀ + 2x₀²` declared over ONE variable under the two-variable key, hiding
+bound 1 (blinding polynomial over both variables); the proof has two witnesses and is accepted.
+And the zero polynomial declared over zero variables. -/
+example : polyVarsBelow 1 ([(4, []), (6, [(0, 1)]), (2, [(0, 2)])] : MVPoly K) = true := by decide
+example : PST.commit (PST.wfCK (3 : K) 5 [2, 7] (specTerms 2 2) 2 2 2 3)
+    [(4, []), (6, [(0, 1)]), (2, [(0, 2)])] (some 1) true [7, 5, 9, 4, 8, 11]
+    = .ok (13, [(7, []), (4, [(1, 1)]), (5, [(0, 1)]), (8, [(1, 2)]), (9, [(0, 2)])], [11]) := by decide
+example : PST.open (PST.wfCK (3 : K) 5 [2, 7] (specTerms 2 2) 2 2 2 3) 1 2
+    [[(4, []), (6, [(0, 1)]), (2, [(0, 2)])]] [10, 20]
+    [[(7, []), (4, [(1, 1)]), (5, [(0, 1)]), (8, [(1, 2)]), (9, [(0, 2)])]] [13]
+    = .ok ⟨[31, 59], some 36⟩ := by decide
+example : PST.check (PST.wfVK (3 : K) 5 11 [2, 7] 2 2 2) [13] [10, 20] [62] ⟨[31, 59], some 36⟩ [13]
+    = .ok true := by decide
+example : PST.open (PST.wfCK (3 : K) 5 [2, 7] (specTerms 2 2) 2 2 2 3) 0 0 [[]] [10, 20] [[]] [13]
+    = .ok ⟨[0, 0], none⟩ := by decide
+
+/-- **Completeness, one polynomial** declared over the key's `nv` variables (the common case of
+`pst13_complete_fewer_vars`). -/
 theorem pst13_complete (g γ h : F) (β : List F) (ts : List Term) (nv s D m : Nat) (p : MVPoly F)
     (hb : Option Nat) (rng : Bool) (draws : List F) (c : F) (r : MVPoly F) (rest : List F)
     (z : List F) (ξ : F) (ξs : List F) (π : PST.Proof F)
@@ -164,26 +228,28 @@ theorem pst13_complete (g γ h : F) (β : List F) (ts : List Term) (nv s D m : N
     (hβ : nv ≤ β.length) (hz : nv ≤ z.length)
     (hc : PST.commit (PST.wfCK g γ β ts nv s D m) p hb rng draws = .ok (c, r, rest))
     (ho : PST.open (PST.wfCK g γ β ts nv s D m) nv nv [p] z [r] (ξ :: ξs) = .ok π) :
-    PST.check (PST.wfVK g γ h β nv s D) [c] z [evalMV p z] π (ξ :: ξs) = .ok true := by
-  have := PST.single_check_eq g γ h β ts nv s D m p hb rng draws c r rest z ξ ξs π 0 0 hp hpv hβ hz
-    hc ho
-  simpa using this
+    PST.check (PST.wfVK g γ h β nv s D) [c] z [evalMV p z] π (ξ :: ξs) = .ok true :=
+  (pst13_complete_fewer_vars g γ h β ts nv s D m nv nv p hb rng draws c r rest z ξ ξs π
+    (Nat.le_refl _) (Nat.le_refl _) hp hpv
+    (PST.commit_spec g γ β ts nv s D m p hb rng draws c r rest hc).2.2.1 hβ hz hc ho).1
 
 /-- **Completeness, challenge-combined list.** Any number of polynomials `ps` with blinding
 polynomials `rs` (of the shape `commit` produces: univariate terms), opened together at `z` under
-the challenges `ξs`: whenever the prover returns a proof, the verifier — consuming the same
-challenges — accepts the commitments `g·pⱼ(β⃗) + γ·rⱼ(β⃗)` with the true values. -/
-theorem pst13_complete_list (g γ h : F) (β : List F) (ts : List Term) (nv s D m : Nat)
+the challenges `ξs` (`nvp`, `nvr ≤ nv`: the numbers of variables the combined polynomial and
+blinding polynomial are declared over): whenever the prover returns a proof, the verifier —
+consuming the same challenges — accepts the commitments `g·pⱼ(β⃗) + γ·rⱼ(β⃗)` with the true values. -/
+theorem pst13_complete_list (g γ h : F) (β : List F) (ts : List Term) (nv s D m nvp nvr : Nat)
     (ps rs : List (MVPoly F)) (z ξs : List F) (π : PST.Proof F)
+    (hnvp : nvp ≤ nv) (hnvr : nvr ≤ nv)
     (hlen : ps.length = rs.length)
-    (hps : ∀ p ∈ ps, polyWf p = true ∧ polyVarsBelow nv p = true)
-    (hrs : ∀ r ∈ rs, polyWf r = true ∧ polyVarsBelow nv r = true ∧
+    (hps : ∀ p ∈ ps, polyWf p = true ∧ polyVarsBelow nvp p = true)
+    (hrs : ∀ r ∈ rs, polyWf r = true ∧ polyVarsBelow nvr r = true ∧
       ∀ t ∈ termsOf r, PST.isUni t = true)
     (hβ : nv ≤ β.length) (hz : nv ≤ z.length)
-    (ho : PST.open (PST.wfCK g γ β ts nv s D m) nv nv ps z rs ξs = .ok π) :
+    (ho : PST.open (PST.wfCK g γ β ts nv s D m) nvp nvr ps z rs ξs = .ok π) :
     PST.check (PST.wfVK g γ h β nv s D) (PST.comms g γ β ps rs) z
       (ps.map (fun p => evalMV p z)) π ξs = .ok true :=
-  PST.open_check_complete g γ h β ts nv s D m ps rs z ξs π hlen hps hrs hβ hz ho
+  PST.open_check_complete g γ h β ts nv s D m nvp nvr ps rs z ξs π hnvp hnvr hlen hps hrs hβ hz ho
 
 /-- **What `commit` returns** under a well-formed key: the key-defined value
 `g·p(β⃗) + γ·r(β⃗)`, a blinding polynomial of the shape the prover's γ-table lookup assumes, and
@@ -232,7 +298,7 @@ theorem pst13_grid_end_to_end_partial (n D s : Nat) (hn1 : 1 ≤ n) (hn6 : n ≤
     (fun b hb => by cases hb)
   obtain ⟨hr, hrest⟩ := PST.commit_none _ p true [] c r rest hc
   subst hr; subst hrest
-  obtain ⟨π, ho⟩ := PST.open_ok g γ β _ n s D (s + 1) hcov [p] [[]] z [ξ]
+  obtain ⟨π, ho⟩ := PST.open_ok g γ β _ n s D (s + 1) hcov n n (Nat.le_refl _) [p] [[]] z [ξ]
     (fun q hq => by simp only [List.mem_singleton] at hq; subst hq; exact ⟨hp, hpv, hd⟩)
     (fun r hr t ht => by simp only [List.mem_singleton] at hr; subst hr; simp [termsOf] at ht)
     (by simp) hz
@@ -270,8 +336,9 @@ theorem wrong_value_rejected (g γ h : F) (β : List F) (ts : List Term) (nv s D
     (ho : PST.open (PST.wfCK g γ β ts nv s D m) nv nv [p] z [r] (ξ :: ξs) = .ok π)
     (hne : δ * ξ * g * h ≠ 0) :
     PST.check (PST.wfVK g γ h β nv s D) [c] z [evalMV p z + δ] π (ξ :: ξs) = .ok false := by
-  have := PST.single_check_eq g γ h β ts nv s D m p hb rng draws c r rest z ξ ξs π 0 δ hp hpv hβ hz
-    hc ho
+  have := PST.single_check_eq g γ h β ts nv s D m nv nv p hb rng draws c r rest z ξ ξs π 0 δ
+    (Nat.le_refl _) (Nat.le_refl _) hp hpv
+    (PST.commit_spec g γ β ts nv s D m p hb rng draws c r rest hc).2.2.1 hβ hz hc ho
   simp only [add_zero] at this
   rw [this]
   congr 1
@@ -291,8 +358,9 @@ theorem other_commitment_rejected (g γ h : F) (β : List F) (ts : List Term) (n
     (ho : PST.open (PST.wfCK g γ β ts nv s D m) nv nv [p] z [r] (ξ :: ξs) = .ok π)
     (hne : dc * ξ * h ≠ 0) :
     PST.check (PST.wfVK g γ h β nv s D) [c + dc] z [evalMV p z] π (ξ :: ξs) = .ok false := by
-  have := PST.single_check_eq g γ h β ts nv s D m p hb rng draws c r rest z ξ ξs π dc 0 hp hpv hβ hz
-    hc ho
+  have := PST.single_check_eq g γ h β ts nv s D m nv nv p hb rng draws c r rest z ξ ξs π dc 0
+    (Nat.le_refl _) (Nat.le_refl _) hp hpv
+    (PST.commit_spec g γ β ts nv s D m p hb rng draws c r rest hc).2.2.1 hβ hz hc ho
   simp only [add_zero] at this
   rw [this]
   congr 1
